@@ -78,6 +78,17 @@ def _dtype_canon(e):
     return ast.copy_location(ast.Attribute(value=ast.Name(id='np', ctx=ast.Load()), attr=name, ctx=ast.Load()), e)
 
 
+# leading positional parameters of numpy routines the package uses (numpy reference; unchanged since 1.x)
+NP_LEADING = {'zeros': ('shape',), 'ones': ('shape',), 'empty': ('shape',), 'full': ('shape', 'fill_value'), 'zeros_like': ('a',), 'ones_like': ('a',),
+              'empty_like': ('prototype',), 'where': ('condition', 'x', 'y'), 'clip': ('a', 'a_min', 'a_max'), 'interp': ('x', 'xp', 'fp'),
+              'tile': ('A', 'reps'), 'outer': ('a', 'b'), 'dot': ('a', 'b'), 'array': ('object',), 'asarray': ('a',), 'sum': ('a',), 'cumsum': ('a',),
+              'argsort': ('a',), 'sort': ('a',), 'unique': ('ar',), 'insert': ('arr', 'obj', 'values'), 'append': ('arr', 'values'),
+              'concatenate': ('arrays',), 'searchsorted': ('a', 'v'), 'nonzero': ('a',), 'isfinite': ('x',), 'sqrt': ('x',), 'abs': ('x',),
+              'absolute': ('x',), 'cos': ('x',), 'sin': ('x',), 'deg2rad': ('x',), 'rad2deg': ('x',), 'radians': ('x',), 'degrees': ('x',),
+              'arccos': ('x',), 'arcsin': ('x',), 'arctan2': ('x1', 'x2'), 'fmod': ('x1', 'x2'), 'minimum': ('x1', 'x2'), 'maximum': ('x1', 'x2'),
+              'floor': ('x',), 'ceil': ('x',), 'log10': ('x',), 'exp': ('x',), 'median': ('a',), 'mean': ('a',), 'result_type': ()}
+
+
 class _E1(ast.NodeTransformer):
     def __init__(self, callee_info, kwarg=None):
         self.callee_info = callee_info
@@ -197,8 +208,13 @@ class _E1(ast.NodeTransformer):
                             return clone(e) if m.id == v and isinstance(m.ctx, ast.Load) else m
                     out.append(S().visit(clone(n.elt)))
                 return ast.copy_location(ast.List(elts=out, ctx=ast.Load()), n)
-        # [E(u, v) for u, v in ((a, 1), (b, 2))]  ->  [E(a, 1), E(b, 2)]
         g0 = n.generators[0] if len(n.generators) == 1 else None
+        # [K for _ in range(n)]  ->  [K] * n      (K a literal: the same immutable object n times either way)
+        if g0 is not None and not g0.ifs and not g0.is_async and isinstance(n.elt, ast.Constant) and isinstance(g0.target, ast.Name) \
+                and isinstance(g0.iter, ast.Call) and isinstance(g0.iter.func, ast.Name) and g0.iter.func.id == 'range' and len(g0.iter.args) == 1 \
+                and not g0.iter.keywords:
+            return ast.copy_location(ast.BinOp(left=ast.List(elts=[n.elt], ctx=ast.Load()), op=ast.Mult(), right=g0.iter.args[0]), n)
+        # [E(u, v) for u, v in ((a, 1), (b, 2))]  ->  [E(a, 1), E(b, 2)]
         if g0 is not None and not g0.ifs and not g0.is_async and isinstance(g0.iter, (ast.Tuple, ast.List)) and 1 <= len(g0.iter.elts) <= 8 \
                 and isinstance(g0.target, ast.Tuple) and all(isinstance(t, ast.Name) for t in g0.target.elts) \
                 and all(isinstance(r, (ast.Tuple, ast.List)) and len(r.elts) == len(g0.target.elts)
@@ -343,6 +359,18 @@ class _E1(ast.NodeTransformer):
         if isinstance(f, ast.Name) and f.id == 'isinstance' and len(n.args) == 2 and isinstance(n.args[1], ast.Tuple) and len(n.args[1].elts) == 1:
             n.args[1] = n.args[1].elts[0]
         if isinstance(f, ast.Attribute) and isinstance(f.value, ast.Name) and f.value.id in ('np', 'numpy'):
+            # np.zeros(shape=n, dtype=D) == np.zeros(n, dtype=D): leading parameters of well-known numpy routines given by keyword are
+            # read positionally (documented, stable signatures; the arguments must be effect-free since their order changes)
+            sig = NP_LEADING.get(f.attr)
+            if sig and n.keywords and all(k.arg is not None for k in n.keywords) and not any(isinstance(a, ast.Starred) for a in n.args) \
+                    and all(_pure_expr(a) for a in n.args) and all(_pure_expr(k.value) for k in n.keywords):
+                kw = {k.arg: k for k in n.keywords}
+                args = list(n.args)
+                while len(args) < len(sig) and sig[len(args)] in kw:
+                    args.append(kw.pop(sig[len(args)]).value)
+                if len(args) != len(n.args):
+                    n.args = args
+                    n.keywords = [k for k in n.keywords if k.arg in kw]
             # np.zeros(shape, 'i4') == np.zeros(shape, dtype='i4')
             if f.attr in ('zeros', 'ones', 'empty') and len(n.args) == 2 and not any(k.arg == 'dtype' for k in n.keywords):
                 n.keywords = [ast.keyword(arg='dtype', value=_dtype_canon(n.args[1]))] + n.keywords
@@ -438,6 +466,14 @@ def _block_fields(n):
     # handlers are nodes with their own body
 
 
+def try_const(e):
+    """A numeric literal, possibly signed."""
+    if isinstance(e, ast.UnaryOp) and isinstance(e.op, (ast.USub, ast.UAdd)):
+        e = e.operand
+    return isinstance(e, ast.Constant) and isinstance(e.value, (int, float)) and not isinstance(e.value, bool) or \
+        (isinstance(e, ast.Constant) and isinstance(e.value, bool))
+
+
 def _stmt_pass(node):
     """One bottom-up pass of the statement-level rewrites over every block under node.  Returns True when something changed."""
     changed = False
@@ -449,6 +485,27 @@ def _stmt_pass(node):
     if isinstance(node, ast.Return) and isinstance(node.value, ast.Constant) and node.value.value is None:
         node.value = None
         changed = True
+    # for i in reversed(range(n))   ->   for i in range(n - 1, -1, -1)
+    if isinstance(node, ast.For) and isinstance(node.iter, ast.Call) and isinstance(node.iter.func, ast.Name) and node.iter.func.id == 'reversed' \
+            and len(node.iter.args) == 1 and not node.iter.keywords and isinstance(node.iter.args[0], ast.Call) \
+            and isinstance(node.iter.args[0].func, ast.Name) and node.iter.args[0].func.id == 'range' and len(node.iter.args[0].args) == 1 \
+            and not node.iter.args[0].keywords and _pure_expr(node.iter.args[0].args[0]):
+        n_ = node.iter.args[0].args[0]
+        node.iter = ast.fix_missing_locations(ast.copy_location(ast.Call(func=ast.Name(id='range', ctx=ast.Load()), args=[
+            ast.BinOp(left=n_, op=ast.Sub(), right=ast.Constant(value=1)), ast.UnaryOp(op=ast.USub(), operand=ast.Constant(value=1)),
+            ast.UnaryOp(op=ast.USub(), operand=ast.Constant(value=1))], keywords=[]), node.iter))
+        changed = True
+    # x.fill(v)   ->   x[:] = v      (ndarray.fill takes a scalar; the slice store of a scalar sets every element too)
+    for fld in ('body', 'orelse', 'finalbody'):
+        blk = getattr(node, fld, None)
+        if isinstance(blk, list) and blk and isinstance(blk[0], ast.stmt):
+            for i_, st in enumerate(blk):
+                if isinstance(st, ast.Expr) and isinstance(st.value, ast.Call) and isinstance(st.value.func, ast.Attribute) and st.value.func.attr == 'fill' \
+                        and len(st.value.args) == 1 and not st.value.keywords and isinstance(st.value.func.value, ast.Name) \
+                        and isinstance(st.value.args[0], (ast.Constant, ast.UnaryOp)) and try_const(st.value.args[0]):
+                    tgt = ast.Subscript(value=st.value.func.value, slice=ast.Slice(lower=None, upper=None, step=None), ctx=ast.Store())
+                    blk[i_] = ast.fix_missing_locations(ast.copy_location(ast.Assign(targets=[tgt], value=st.value.args[0], type_comment=None), st))
+                    changed = True
     if isinstance(node, (ast.If, ast.For, ast.While, ast.AsyncFor)) and len(node.orelse) == 1 and isinstance(node.orelse[0], ast.Pass):
         node.orelse = []
         changed = True
@@ -870,6 +927,95 @@ def _coalesce_copy(fn):
                     x.id = b
         del fn.body[idx]
         changed = True
+    # the same inside a nested block (a loop body): b is the block's own variable - no occurrence outside the block, (re)bound by a
+    # plain assignment at the block's own level before its first read - so it is dead after the copy in every pass; a lives only in the
+    # rest of the block
+    def names_in(nodes, nm):
+        return sum(1 for r in nodes for x in ast.walk(r) if isinstance(x, ast.Name) and x.id == nm)
+    total = {}
+    for x in ast.walk(fn):
+        if isinstance(x, ast.Name):
+            total[x.id] = total.get(x.id, 0) + 1
+    for owner in ast.walk(fn):
+        if owner is fn:
+            continue
+        for fld in ('body', 'orelse'):
+            body = getattr(owner, fld, None)
+            if not (isinstance(body, list) and body and isinstance(body[0], ast.stmt)) or isinstance(owner, (ast.Lambda, ast.FunctionDef, ast.ClassDef)):
+                continue
+            for st in list(body):
+                if not (isinstance(st, ast.Assign) and len(st.targets) == 1 and isinstance(st.targets[0], ast.Name) and isinstance(st.value, ast.Name)):
+                    continue
+                a, b = st.targets[0].id, st.value.id
+                if a == b or a in params or b in params:
+                    continue
+                idx = next(k for k, x in enumerate(body) if x is st)
+                before, after = body[:idx], body[idx + 1:]
+                if names_in(after, a) + 1 != total.get(a, 0):           # a: only the copy and the rest of the block
+                    continue
+                if names_in(after, b) != 0 or names_in(before, b) + 1 != total.get(b, 0):
+                    continue
+                first = next((k for k, r in enumerate(before) if names_in([r], b)), None)
+                if first is None:
+                    continue
+                fst = before[first]
+                if not (isinstance(fst, ast.Assign) and len(fst.targets) == 1 and isinstance(fst.targets[0], ast.Name) and fst.targets[0].id == b
+                        and names_in([fst.value], b) == 0):
+                    continue
+                for r in after:
+                    for x in ast.walk(r):
+                        if isinstance(x, ast.Name) and x.id == a:
+                            x.id = b
+                body.remove(st)
+                total[b] = total.get(b, 0) + total.get(a, 0) - 2
+                total[a] = 0
+                changed = True
+    return changed
+
+
+def _fresh_zeros(fn):
+    """X = np.zeros(S, dtype=D) (X bound once, S and D over names that are never re-bound):
+         np.zeros_like(X)  reads  np.zeros(S, dtype=D)         (shape and type of X cannot change through element stores)
+         X.copy()          reads  np.zeros(S, dtype=D)         when nothing between the allocation and the copy mentions X other than
+                                                               such copies (X is still all zeros)."""
+    stores = {}
+    for n in ast.walk(fn):
+        if isinstance(n, ast.Name) and isinstance(n.ctx, (ast.Store, ast.Del)):
+            stores[n.id] = stores.get(n.id, 0) + 1
+    params = {a.arg for a in fn.args.posonlyargs + fn.args.args + fn.args.kwonlyargs}
+    changed = False
+    for owner in ast.walk(fn):
+        for fld in ('body', 'orelse', 'finalbody'):
+            body = getattr(owner, fld, None)
+            if not (isinstance(body, list) and body and isinstance(body[0], ast.stmt)) or isinstance(owner, ast.Lambda):
+                continue
+            for i, st in enumerate(body):
+                if not (isinstance(st, ast.Assign) and len(st.targets) == 1 and isinstance(st.targets[0], ast.Name) and isinstance(st.value, ast.Call)
+                        and isinstance(st.value.func, ast.Attribute) and st.value.func.attr == 'zeros' and isinstance(st.value.func.value, ast.Name)
+                        and st.value.func.value.id in ('np', 'numpy')):
+                    continue
+                x = st.targets[0].id
+                if stores.get(x) != 1 or x in params or not _pure_expr(st.value):
+                    continue
+                free = {y.id for y in ast.walk(st.value) if isinstance(y, ast.Name)}
+                if x in free or any(stores.get(y, 0) != 0 for y in free):
+                    continue
+                still_zero = True
+                for r in body[i + 1:]:
+                    for c in ast.walk(r):
+                        if isinstance(c, ast.Call) and isinstance(c.func, ast.Attribute) and c.func.attr == 'zeros_like' and len(c.args) == 1 and not c.keywords \
+                                and isinstance(c.args[0], ast.Name) and c.args[0].id == x:
+                            new = clone(st.value)
+                            c.func, c.args, c.keywords = new.func, new.args, new.keywords
+                            changed = True
+                    if still_zero and isinstance(r, ast.Assign) and isinstance(r.value, ast.Call) and isinstance(r.value.func, ast.Attribute) \
+                            and r.value.func.attr == 'copy' and not r.value.args and not r.value.keywords and isinstance(r.value.func.value, ast.Name) \
+                            and r.value.func.value.id == x and not any(isinstance(y, ast.Name) and y.id == x for t in r.targets for y in ast.walk(t)):
+                        r.value = ast.copy_location(clone(st.value), r.value)
+                        changed = True
+                        continue
+                    if any(isinstance(y, ast.Name) and y.id == x for y in ast.walk(r)):
+                        still_zero = False
     return changed
 
 
@@ -957,7 +1103,14 @@ def _nest_guards(g):
     c = clone(g)
 
     def ends(body):
-        return bool(body) and isinstance(body[-1], (ast.Return, ast.Raise))
+        if not body:
+            return False
+        last = body[-1]
+        if isinstance(last, (ast.Return, ast.Raise)):
+            return True
+        if isinstance(last, ast.If):
+            return bool(last.orelse) and ends(last.body) and ends(last.orelse)
+        return False
 
     def nest(body):
         for i, st in enumerate(body):
@@ -1106,7 +1259,7 @@ def inline_new_helpers(fn, resolve, is_new, depth=2):
                     used = {n.id for st in body + out for n in ast.walk(st) if isinstance(n, ast.Name)}
                     if not (set(tnames) & used):
                         ren = dict(zip(vnames, tnames))
-                        for st in body:
+                        for st in body + out:            # `out`: a returned parameter is bound there
                             for n in ast.walk(st):
                                 if isinstance(n, ast.Name) and n.id in ren:
                                     n.id = ren[n.id]
@@ -1793,7 +1946,12 @@ def _ssa_split(fn):
         elif isinstance(n, (ast.FunctionDef, ast.AsyncFunctionDef, ast.ClassDef, ast.Lambda)) and n is not fn:
             # nested scopes read the enclosing names late: leave every name they mention alone
             other |= {x.id for x in ast.walk(n) if isinstance(x, ast.Name)}
-    cands = [nm for nm, lst in sites.items() if len({id(st) for st, _ in lst}) >= 2 and nm not in other and nm not in params]
+    # a parameter that is re-bound: its incoming value is one more binding (that web keeps the parameter's name)
+    argnodes = {a.arg: a for a in fn.args.posonlyargs + fn.args.args + fn.args.kwonlyargs}
+    for nm in list(sites):
+        if nm in argnodes:
+            sites[nm].insert(0, (argnodes[nm], None))
+    cands = [nm for nm, lst in sites.items() if len({id(st) for st, _ in lst}) >= 2 and nm not in other and (nm not in params or nm in argnodes)]
     if not cands:
         return False
     link_parents(fn)
@@ -1842,9 +2000,10 @@ def _ssa_split(fn):
         names = {}
         for root, xs in webs.items():
             k += 1
-            names[root] = '%s__s%d' % (nm, k)
+            names[root] = nm if any(x is None for x in xs) else '%s__s%d' % (nm, k)
             for x in xs:
-                x.id = names[root]
+                if x is not None:
+                    x.id = names[root]
         for u in uses:
             u.id = names[find(use_def[id(u)])]
         changed = True
@@ -1922,6 +2081,30 @@ def _sink_definitions(fn):
                     if j > i0 + 1 and j < len(body) and any(isinstance(x, ast.Name) and x.id == nm for x in ast.walk(body[j])):
                         body.insert(j - 1, body.pop(i0))
                         changed = True
+            # an element store `X[i] = v` (i, v effect-free) moves down past plain pure definitions that do not mention X, to just before
+            # the next statement that does: 'initialised next to the allocation' and 'initialised before the loop' are one form
+            i = len(body) - 2
+            while i >= 0:
+                st = body[i]
+                i0 = i
+                i -= 1
+                if not (isinstance(st, ast.Assign) and len(st.targets) == 1 and isinstance(st.targets[0], ast.Subscript)
+                        and isinstance(st.targets[0].value, ast.Name) and _pure_expr(st.targets[0].slice) and _pure_expr(st.value)):
+                    continue
+                nm = st.targets[0].value.id
+                free = {x.id for x in ast.walk(st) if isinstance(x, ast.Name)}
+                j = i0 + 1
+                while j < len(body):
+                    nxt = body[j]
+                    if any(isinstance(x, ast.Name) and x.id == nm for x in ast.walk(nxt)):
+                        break
+                    m2, s2 = _mutated_names(nxt)
+                    if not (isinstance(nxt, ast.Assign) and all(isinstance(t, ast.Name) for t in nxt.targets) and _pure_expr(nxt.value)) or ((m2 | set(s2)) & free):
+                        break
+                    j += 1
+                if j > i0 + 1 and j < len(body) and any(isinstance(x, ast.Name) and x.id == nm for x in ast.walk(body[j])):
+                    body.insert(j - 1, body.pop(i0))
+                    changed = True
             # runs of adjacent, mutually independent pure definitions get a canonical order
             k = 0
             while k < len(body):
@@ -1934,7 +2117,15 @@ def _sink_definitions(fn):
                     names = {r.targets[0].id for r in run}
                     indep = all(not ({x.id for x in ast.walk(r.value) if isinstance(x, ast.Name)} & (names - {r.targets[0].id})) for r in run)
                     if indep:
-                        srt = sorted(run, key=lambda r: ast.dump(r.value))
+                        # equal right-hand sides: the one whose name is mentioned first afterwards comes first
+                        rest_names = [x.id for r2 in body[k:] for x in ast.walk(r2) if isinstance(x, ast.Name)]
+
+                        def first_use(r):
+                            try:
+                                return rest_names.index(r.targets[0].id)
+                            except ValueError:
+                                return len(rest_names)
+                        srt = sorted(run, key=lambda r: (ast.dump(r.value), first_use(r)))
                         if [id(x) for x in srt] != [id(x) for x in run]:
                             body[k - len(run):k] = srt
                             changed = True
@@ -2153,6 +2344,31 @@ def _default_override(fn):
             body = getattr(owner, fld, None)
             if not (isinstance(body, list) and len(body) >= 2 and isinstance(body[0], ast.stmt)) or isinstance(owner, ast.Lambda):
                 continue
+            # a default that cannot raise is bound where it is overridden: `x = A; <statements that neither read nor write x nor re-bind
+            # a name of A>; if c: x = B`  - the default moves down next to the `if`
+            for i in range(len(body) - 2):
+                a = body[i]
+                if not (isinstance(a, ast.Assign) and len(a.targets) == 1 and isinstance(a.targets[0], ast.Name) and _total_expr(a.value)):
+                    continue
+                x_ = a.targets[0].id
+                free_a = {y.id for y in ast.walk(a.value) if isinstance(y, ast.Name)}
+                j = next((k for k in range(i + 1, len(body)) if any(isinstance(y, ast.Name) and y.id == x_ for y in ast.walk(body[k]))), None)
+                if j is None or j == i + 1:
+                    continue
+                b = body[j]
+                if not (isinstance(b, ast.If) and not b.orelse and len(b.body) == 1 and isinstance(b.body[0], ast.Assign) and len(b.body[0].targets) == 1
+                        and isinstance(b.body[0].targets[0], ast.Name) and b.body[0].targets[0].id == x_
+                        and x_ not in {y.id for y in ast.walk(b.test) if isinstance(y, ast.Name)}
+                        and x_ not in {y.id for y in ast.walk(b.body[0].value) if isinstance(y, ast.Name)}):
+                    continue
+                between = body[i + 1:j]
+                if any(isinstance(y, (ast.Try, ast.With, ast.Return, ast.Raise, ast.Break, ast.Continue)) for r in between for y in ast.walk(r)):
+                    continue
+                if any(isinstance(y, ast.Name) and isinstance(y.ctx, (ast.Store, ast.Del)) and y.id in free_a for r in between for y in ast.walk(r)):
+                    continue
+                body.insert(j - 1, body.pop(i))
+                changed = True
+                break
             i = 0
             while i + 1 < len(body):
                 a, b = body[i], body[i + 1]
@@ -2832,6 +3048,9 @@ def normal_form(fn, callee_info=None, consts=None):
         _copy_prop(c)
         _coalesce_copy(c)
         _group_store(c)
+        _fresh_zeros(c)
+        _unalias(c)
+        _max_idiom(c)
         _getattr_default(c)
         _tail_returns(c)
         _tail_return_dedup(c)
@@ -2912,6 +3131,170 @@ def canon_test(e):
         out = T().visit(out)
         out = _E1(None).visit(out)
     return out
+
+
+def _path_of(e):
+    """Text of the chain of a name / attribute / subscript expression, or None."""
+    b = e
+    while isinstance(b, (ast.Attribute, ast.Subscript)):
+        b = b.value
+    return ast.unparse(e) if isinstance(b, ast.Name) else None
+
+
+def _unalias(c):
+    """`x = A.b[i]` with x bound once: x is another name for that slot, and reads as it (also where it is assigned through or receives a
+    mutating call - the object is the same).  Conditions: the right-hand side is a chain of attribute reads / subscripts (and + - of
+    names and integers in the indices); every name in it is never re-bound, or is the variable of a loop that holds the binding, or is
+    bound once before it in the same loop body; no statement of the function re-binds the slot or a prefix of it (`A.b[i] = ..`,
+    `A.b = ..`, `del`), and no mutating call is made on a proper prefix (`A.b.append(..)`)."""
+    stores = {}
+    binder = {}
+    for n in ast.walk(c):
+        if isinstance(n, ast.Name) and isinstance(n.ctx, (ast.Store, ast.Del)):
+            stores[n.id] = stores.get(n.id, 0) + 1
+        if isinstance(n, (ast.Global, ast.Nonlocal)):
+            for x in n.names:
+                stores[x] = 99
+    params = {a.arg for a in c.args.posonlyargs + c.args.args + c.args.kwonlyargs} | \
+        {a.arg for a in (c.args.vararg, c.args.kwarg) if a is not None}
+    parents = {}
+    for n in ast.walk(c):
+        for ch in ast.iter_child_nodes(n):
+            parents[id(ch)] = n
+
+    def loops_of(n):
+        out = []
+        while id(n) in parents:
+            n = parents[id(n)]
+            if isinstance(n, (ast.For, ast.While)):
+                out.append(n)
+        return out
+    for n in ast.walk(c):
+        if isinstance(n, ast.For):
+            for t in ast.walk(n.target):
+                if isinstance(t, ast.Name):
+                    binder[t.id] = n
+        elif isinstance(n, ast.Assign):
+            for t in n.targets:
+                for x in ast.walk(t):
+                    if isinstance(x, ast.Name) and isinstance(x.ctx, ast.Store):
+                        binder.setdefault(x.id, n)
+    store_paths, mut_paths = [], []
+    for n in ast.walk(c):
+        if isinstance(n, (ast.Attribute, ast.Subscript)) and isinstance(n.ctx, (ast.Store, ast.Del)):
+            p_ = _path_of(n)
+            if p_:
+                store_paths.append(p_)
+        if isinstance(n, ast.AugAssign):
+            p_ = _path_of(n.target)
+            if p_:
+                store_paths.append(p_)
+        if isinstance(n, ast.Call) and isinstance(n.func, ast.Attribute) and n.func.attr in MUTATING:
+            p_ = _path_of(n.func.value)
+            if p_:
+                mut_paths.append(p_)
+    mapping, drop = {}, set()
+    for n in ast.walk(c):
+        if not (isinstance(n, ast.Assign) and len(n.targets) == 1 and isinstance(n.targets[0], ast.Name)):
+            continue
+        x = n.targets[0].id
+        v = n.value
+        if stores.get(x) != 1 or x in params or not isinstance(v, (ast.Attribute, ast.Subscript)):
+            continue
+        if not all(isinstance(y, (ast.Name, ast.Attribute, ast.Subscript, ast.Constant, ast.expr_context, ast.BinOp, ast.Add, ast.Sub, ast.UnaryOp, ast.USub))
+                   for y in ast.walk(v)):
+            continue
+        path = _path_of(v)
+        if path is None:
+            continue
+        if any(path == sp or path.startswith(sp + '[') or path.startswith(sp + '.') for sp in store_paths):
+            continue
+        if any(path != mp and (path.startswith(mp + '[') or path.startswith(mp + '.')) for mp in mut_paths):
+            continue
+        my_loops = loops_of(n)
+
+        def steady(y):
+            if stores.get(y, 0) == 0:
+                return True
+            if stores.get(y) != 1 or y in params:
+                return False
+            b = binder.get(y)
+            if isinstance(b, ast.For):
+                return any(z is n for st in b.body for z in ast.walk(st))
+            if isinstance(b, ast.Assign):
+                lb = loops_of(b)
+                return [id(l) for l in lb] == [id(l) for l in my_loops][-len(lb):] if lb else True and \
+                    (getattr(b, 'lineno', 0), getattr(b, 'col_offset', 0)) < (getattr(n, 'lineno', 0), getattr(n, 'col_offset', 0))
+            return False
+        free = {y.id for y in ast.walk(v) if isinstance(y, ast.Name)}
+        if x in free or not all(steady(y) for y in free):
+            continue
+        # every use must come after the binding, inside the innermost loop that holds it (or anywhere after, when it is in no loop)
+        scope = my_loops[0] if my_loops else c
+        inside = sum(1 for z in ast.walk(scope) if isinstance(z, ast.Name) and z.id == x and isinstance(z.ctx, ast.Load))
+        total = sum(1 for z in ast.walk(c) if isinstance(z, ast.Name) and z.id == x and isinstance(z.ctx, ast.Load))
+        if inside != total or total == 0:
+            continue
+        if any((getattr(z, 'lineno', 0), getattr(z, 'col_offset', 0)) < (n.lineno, n.col_offset) for z in ast.walk(scope)
+               if isinstance(z, ast.Name) and z.id == x and isinstance(z.ctx, ast.Load)):
+            continue
+        mapping[x] = v
+        drop.add(id(n))
+    if not mapping:
+        return False
+    for n in ast.walk(c):
+        for fld in ('body', 'orelse', 'finalbody'):
+            v = getattr(n, fld, None)
+            if isinstance(v, list) and v and isinstance(v[0], ast.stmt):
+                kept = [st for st in v if id(st) not in drop]
+                if len(kept) != len(v):
+                    setattr(n, fld, kept or [ast.Pass()])
+
+    def resolve(e, depth=0):
+        class R(ast.NodeTransformer):
+            def visit_Name(self, m):
+                if isinstance(m.ctx, ast.Load) and m.id in mapping and depth < 8:
+                    return ast.copy_location(resolve(clone(mapping[m.id]), depth + 1), m)
+                return m
+        return R().visit(e)
+    for n in list(ast.walk(c)):
+        for fld, val in ast.iter_fields(n):
+            if isinstance(val, ast.Name) and isinstance(val.ctx, ast.Load) and val.id in mapping:
+                setattr(n, fld, ast.copy_location(resolve(clone(mapping[val.id])), val))
+            elif isinstance(val, list):
+                for i_, x in enumerate(val):
+                    if isinstance(x, ast.Name) and isinstance(x.ctx, ast.Load) and x.id in mapping:
+                        val[i_] = ast.copy_location(resolve(clone(mapping[x.id])), x)
+    ast.fix_missing_locations(c)
+    return True
+
+
+def plain_aliases(fn):
+    """The rules' view of a function whose locals alias slots of its data (`done = chunkDone[d]`): see _unalias."""
+    c = clone(fn)
+    return c if _unalias(c) else fn
+
+
+def _max_idiom(fn):
+    """if A < B: A = B   ->   A = max(A, B)      (A a name / attribute / subscript chain, B effect-free; one comparison either way)"""
+    changed = False
+    for owner in ast.walk(fn):
+        for fld in ('body', 'orelse', 'finalbody'):
+            body = getattr(owner, fld, None)
+            if not (isinstance(body, list) and body and isinstance(body[0], ast.stmt)) or isinstance(owner, ast.Lambda):
+                continue
+            for i, st in enumerate(body):
+                if isinstance(st, ast.If) and not st.orelse and len(st.body) == 1 and isinstance(st.body[0], ast.Assign) and len(st.body[0].targets) == 1 \
+                        and isinstance(st.test, ast.Compare) and len(st.test.ops) == 1 and isinstance(st.test.ops[0], (ast.Lt, ast.Gt)):
+                    a_, b_ = st.test.left, st.test.comparators[0]
+                    if isinstance(st.test.ops[0], ast.Gt):
+                        a_, b_ = b_, a_
+                    tgt, val = st.body[0].targets[0], st.body[0].value
+                    if _path_of(tgt) and ast.unparse(tgt) == ast.unparse(a_) and ast.dump(val) == ast.dump(b_) and _pure_expr(b_) and _pure_expr(a_):
+                        new = ast.Assign(targets=[tgt], value=ast.Call(func=ast.Name(id='max', ctx=ast.Load()), args=[a_, b_], keywords=[]), type_comment=None)
+                        body[i] = ast.fix_missing_locations(ast.copy_location(new, st))
+                        changed = True
+    return changed
 
 
 def plain_argument_temps(fn):
